@@ -176,13 +176,16 @@ def two_program_path(stats, files, main, options=()):
         # the three programs are three processes: nothing but the files passes between them, so each may
         # as well run under its own string-hash seed
         hs = sum(len(t) for t in files.values())
+        # the main file may be named in more than one way; both routes get the same spelling
+        os.makedirs(os.path.join(d, "sub"), exist_ok=True)
+        main = [main, "./" + main, "sub/../" + main, main, ".//" + main][hs % 5]
         env_a = dict(env, PYTHONHASHSEED=str(1 + hs % 5))
         env_b = dict(env, PYTHONHASHSEED=str(7 + hs % 3))
         a = subprocess.run([py, "-m", "compiler.front_end.emboss_front_end", "--import-dir", d, "--output-file", os.path.join(d, "ir.json"), main], cwd=d, env=env_a, capture_output=True, text=True, timeout=600)
         b = subprocess.run([py, "-m", "compiler.back_end.cpp.emboss_codegen_cpp", "--input-file", os.path.join(d, "ir.json"), "--output-file", os.path.join(d, "two.h")] + options, cwd=d, env=env_b, capture_output=True, text=True, timeout=600)
         c = subprocess.run([py, os.path.join(emb.REPO, "embossc"), "--import-dir", d, "--output-path", d, "--output-file", "one.h"] + options + [main], cwd=d, env=env, capture_output=True, text=True, timeout=600)
         case = {"files": files, "main": main, "step": "cli", "options": options}
-        stats.case(["cli", files, main, options], True, ["cli-two-program"] + ["option:" + o for o in options], sample=None)
+        stats.case(["cli", files, main, options], True, ["cli-two-program"] + ["option:" + o for o in options] + (["main-file-spelled:" + main.rsplit("/", 1)[0] + "/"] if "/" in main and (main.startswith(".") or main.startswith("sub/..")) else []), sample=None)
         if a.returncode or b.returncode or c.returncode:
             # a module may be rejected by the front end or only by the back end (e.g. a bad enum_case):
             # the two paths agree when either stage of the split path fails exactly when embossc fails
